@@ -20,6 +20,7 @@ import GrcVerif.FeatModel
 import GrcVerif.Cmap
 import GrcVerif.LineMap
 import GrcVerif.StaticRules
+import GrcVerif.Octabox
 namespace Grc.Driver
 
 structure State where
@@ -630,6 +631,41 @@ def cmdC10 (st : State) : List String := Id.run do
       if !v.isEmpty then out := out ++ [s!"violation pass {pj.index} rule {ri} line {r.line}: " ++ " ; ".intercalate v]
   out ++ [s!"ok violations={out.length}", "done"]
 
+/-- C20: octabox records of the output font's Glat against the glyf outlines of the INPUT font. -/
+def cmdC20 (st : State) : Except String (List String) := do
+  let (ib, fi) ← match st.inFont, st.inSfnt with
+    | some a, some b => pure (a, b)
+    | _, _ => throw "no input font loaded (infont)"
+  let tbl (tag : String) : Except String ByteArray :=
+    match fi.find? (strTag tag) with
+    | some e => match tableBytes ib e with | some t => pure t | none => throw s!"input table {tag} out of bounds"
+    | none => throw s!"input font lacks table {tag}"
+  let glyf ← tbl "glyf"
+  let loca ← tbl "loca"
+  let head ← tbl "head"
+  let maxp ← tbl "maxp"
+  let longLoca := beU16 head 50 == 1
+  let numGlyphs := beU16 maxp 4
+  let (_, glat) ← getGlat st
+  if !glat.hasOctaboxes then return ["FAIL Glat has no octaboxes", "done"]
+  let mut out : List String := []
+  let mut nPts := 0
+  let mut nSub := 0
+  let mut degenerate := 0
+  for g in [0:glat.glyphs.size] do
+    let some ob := (glat.glyphs.getD g default).octa | out := out ++ [s!"FAIL glyph {g}: no octabox record"]
+    let pts : List Octa.Pt :=
+      if g < numGlyphs then (Octa.glyphPoints glyf loca longLoca g).getD [] else []
+    nPts := nPts + pts.length
+    nSub := nSub + ob.sub.size
+    let comps := if g < numGlyphs then Octa.componentIds glyf loca longLoca g else []
+    let repeats := comps.length != comps.eraseDups.length
+    for m in Octa.checkGlyph g pts ob do
+      if m.startsWith "DEGENERATE" then degenerate := degenerate + 1
+      else out := out ++ ["FAIL " ++ m ++ (if repeats then " [composite repeats a component]" else "")]
+  if out.isEmpty then return [s!"ok glyphs={glat.glyphs.size} points={nPts} subBoxes={nSub} degenerate={degenerate}", "done"]
+  return out ++ ["done"]
+
 def step (st : State) (toks : List String) : IO (State × List String) := do
   match toks with
   | [] => return (st, [])
@@ -730,6 +766,10 @@ def step (st : State) (toks : List String) : IO (State × List String) := do
     return (st', ls)
   | ["linemap", path, token] => return (st, ← cmdLineMap path token)
   | ["c10"] => return (st, cmdC10 st)
+  | ["c20"] =>
+    match cmdC20 st with
+    | .ok ls => return (st, ls)
+    | .error e => return (st, [s!"error {e}", "done"])
   | ["c06"] =>
     match cmdC06 st with
     | .ok ls => return (st, ls)
